@@ -22,6 +22,8 @@ Alphabet (ops are JSON lists, locations are indices into the init's location uni
   ["add", d, i, form]   core.add(fresh of design d, empty location i): form 0 = locator passed to add(),
                         form 1 = locator assigned to the assembly first, add() without locator
   ["replace", d, i, dis] fresh.spatialLocator = loc_i; core.removeAssembly(a_i, dis); core.add(fresh)
+  ["readdocc", a]       the same while that place has been refilled: contract ValueError, state unchanged
+  ["swapself", i]       FuelHandler.swapAssemblies(a_i, a_i): misuse, must leave the state intact
   ["readd", a]          core.add(purged assembly a) back at the (free) place it was taken from, located
                         by the detached locator it still carries
   ["addocc", d, i]      core.add(fresh, OCCUPIED location i)   contract: ValueError, state unchanged
@@ -67,6 +69,24 @@ STAT_FLAGS = {
     "mixed": ["GRID_PLATE"],
 }
 FLAG_BLOCK = {"GRID_PLATE": "grid plate", "FUEL": "fuel", "PLENUM": "plenum"}
+# the layout-pair family: IC is always [grid plate, fuel, shield, plenum]; the OC stack puts the
+# flagged blocks so that, pair by pair, positions are aligned (a) or misaligned (m) with IC's, or the
+# counts differ (c): name -> (flags, OC stack)
+IC_STACK = ["grid plate", "fuel", "shield", "plenum"]
+PAIR_FAMILY = {
+    "am": (["GRID_PLATE", "PLENUM"], ["grid plate", "plenum", "fuel", "shield"]),
+    "ma": (["GRID_PLATE", "PLENUM"], ["fuel", "grid plate", "shield", "plenum"]),
+    "mm": (["GRID_PLATE", "PLENUM"], ["fuel", "grid plate", "plenum", "shield"]),
+    "ca": (["GRID_PLATE", "PLENUM"], ["grid plate", "fuel", "shield", "fuel"]),
+    "cm": (["GRID_PLATE", "PLENUM"], ["fuel", "grid plate", "shield", "fuel"]),
+    "aam": (["GRID_PLATE", "FUEL", "PLENUM"], ["grid plate", "fuel", "plenum", "shield"]),
+    "ama": (["GRID_PLATE", "FUEL", "PLENUM"], ["grid plate", "shield", "fuel", "plenum"]),
+    "aa": (["GRID_PLATE", "PLENUM"], ["grid plate", "shield", "fuel", "plenum"]),
+}
+
+
+def stat_flags(init):
+    return list(init["flags"]) if init.get("flags") is not None else list(STAT_FLAGS[init["stat"]])
 POOL_FILL = [([0, 0], "IC"), ([1, 0], "OC")]
 
 # name -> hex_spec arguments, occupied cells (None = every in-domain cell), extra empty locations
@@ -89,10 +109,19 @@ def make_spec(init):
         rings=c["rings"],
         third=c["third"],
         cells=[tuple(x) for x in c["cells"]] if c["cells"] else None,
-        grid_plate=init["stat"] != "none",
+        grid_plate=init["stat"] != "none" and not init.get("stacks"),
         sfp=bool(init.get("sfp", True)),
         sfp_contents={tuple(c): sp for c, sp in POOL_FILL} if init.get("poolfill") else None,
     )
+    if init.get("stacks"):
+        # four-block designs given block by block (layout-pair family): same heights at every level,
+        # so that only the POSITIONS of the stationary blocks differ between the two designs
+        spec["blocks"]["grid plate"] = build.grid_plate_block()
+        spec["blocks"]["shield"] = build.shield_block()
+        for sp, dname, u, zr, xs in (("IC", "igniter fuel", 0.11, 0.06, "A"), ("OC", "outer fuel", 0.2, 0.1, "C")):
+            stack = list(init["stacks"][sp])
+            mm = {"U235_wt_frac": [u if b == "fuel" else "" for b in stack], "ZR_wt_frac": [zr if b == "fuel" else "" for b in stack]}
+            spec["assemblies"][dname] = build.assem(sp, stack, [10.0, 25.0, 20.0, 30.0], [xs] * 4, mm)
     if init["stat"] == "mixed":
         # the outer design carries its grid plate one level higher: layouts differ between designs
         a = spec["assemblies"]["outer fuel"]
@@ -118,8 +147,8 @@ class Model:
 
     def __init__(self, init, spec):
         self.track = bool(init["track"])
-        self.flags = init["stat"] != "none"
-        self.statblocks = {FLAG_BLOCK[f] for f in STAT_FLAGS[init["stat"]]}
+        self.flags = bool(stat_flags(init))
+        self.statblocks = {FLAG_BLOCK[f] for f in stat_flags(init)}
         self.lastcell = {}  # purged label -> location index it was taken from
         self.blocks = {name: list(a["blocks"]) for name, a in spec["assemblies"].items()}
         self.heights = {name: list(a["heights"]) for name, a in spec["assemblies"].items()}
@@ -204,6 +233,10 @@ class Model:
             return "ok" if op[1] in self.purged and self.lastcell.get(op[1]) not in self.loc else None
         if kind == "addocc":
             return "refused:ValueError"
+        if kind == "readdocc":
+            return "refused:ValueError" if op[1] in self.purged and self.lastcell.get(op[1]) in self.loc else None
+        if kind == "swapself":
+            return "self"
         if kind == "addout":
             return "refused:LookupError"
         raise ValueError(op)
@@ -282,6 +315,8 @@ def enabled_ops(m, init):
     for x, i in enumerate(occ):
         for j in occ[x + 1 :]:
             ops.append(["swap", i, j])
+    for i in occ[: al.get("swapself", 0)]:
+        ops.append(["swapself", i])
     for i in occ:
         for dis in (1, 0):
             ops.append(["remove", i, dis])
@@ -298,8 +333,8 @@ def enabled_ops(m, init):
                 ops.append(["replace", al["fresh"][0], i, dis])
     if al.get("readd"):
         for a in m.purged[-al["readd"] :]:
-            if m.lastcell.get(a) is not None and m.lastcell[a] not in m.loc:
-                ops.append(["readd", a])
+            if m.lastcell.get(a) is not None:
+                ops.append(["readd" if m.lastcell[a] not in m.loc else "readdocc", a])
     for i in occ[: al.get("addocc", 0)]:
         for form in al.get("addforms", [0]):
             ops.append(["addocc", al["fresh"][0], i, form])
@@ -386,7 +421,7 @@ def build_state(init):
     from armi.physics.fuelCycle.fuelHandlers import FuelHandler
 
     spec = make_spec(init)
-    flags = list(STAT_FLAGS[init["stat"]])
+    flags = stat_flags(init)
     cs = build.settings(trackAssems=bool(init["track"]), stationaryBlockFlags=flags)
     r = build.reactor(spec, cs=cs, seed=1400 + int(init.get("seed", 0)))
     o = _operator(cs)
@@ -437,9 +472,17 @@ def snapshot(s):
     out["abn"] = sorted((k, id(v)) for k, v in s.core.assembliesByName.items())
     out["bbn"] = sorted((k, id(v)) for k, v in s.core.blocksByName.items())
     ass = []
-    for a in list(s.core) + (list(s.sfp) if s.sfp is not None else []):
+    inplant = {id(x) for x in list(s.core) + (list(s.sfp) if s.sfp is not None else [])}
+    known = list(s.obj.values())
+    for a in known + [x for x in list(s.core) + (list(s.sfp) if s.sfp is not None else []) if id(x) not in s.lab]:
         sl = a.spatialLocator
-        ass.append([id(a), a.getName(), id(a.parent), repr(sl), id(getattr(sl, "grid", None)), float(a.p.numMoves), [(id(b), b.getName(), id(b.parent), repr(b.spatialLocator)) for b in a]])
+        if id(a) in inplant:
+            ass.append([id(a), a.getName(), id(a.parent), repr(sl), id(getattr(sl, "grid", None)), float(a.p.numMoves), [(id(b), b.getName(), id(b.parent), repr(b.spatialLocator)) for b in a]])
+        else:
+            # an assembly outside the plant (fresh, purged): its blocks and their order must not change
+            # either; its placeholder name/number is not plant state (a refused dischargeSwap may have
+            # given a fresh assembly its final number already)
+            ass.append([id(a), id(a.parent), [(id(b), id(b.parent), int(b.spatialLocator.k)) for b in a]])
     out["assemblies"] = ass
     return out
 
@@ -456,6 +499,17 @@ def apply_op(s, m, op, init, viols, case):
     if exp is None:
         raise RuntimeError("operation %s not in the alphabet of this state" % (op,))
     inc = None
+    if kind == "swapself":
+        # misuse: an assembly swapped with itself. Whatever the call does (nothing, or a refusal), the
+        # state must stay intact; only the move counter is left to the implementation.
+        a = s.obj[m.loc[op[1]]]
+        try:
+            s.fh.swapAssemblies(a, a)
+            out = "ok"
+        except Exception as e:  # noqa: BLE001
+            out = "refused:" + type(e).__name__
+        m.moves[m.loc[op[1]]] = float(a.p.numMoves)
+        return out
     before = snapshot(s) if exp != "ok" else None
     stat = "stationary" if m.flags else "nostationary"
     pool = "" if init.get("sfp", True) else "default-pool/"
@@ -490,7 +544,7 @@ def apply_op(s, m, op, init, viols, case):
             f.spatialLocator = s.core.spatialGrid[i, j, 0]
             s.core.removeAssembly(s.obj[m.loc[op[2]]], discharge=bool(op[3]))
             s.core.add(f)
-        elif kind == "readd":
+        elif kind in ("readd", "readdocc"):
             # a purged assembly goes back where it was: it still carries a detached copy of that locator
             s.core.add(s.obj[op[1]])
         elif kind == "addout":
@@ -839,7 +893,13 @@ def inits(ctx):
         al.update(alpha)
         out.append(({"core": core, "track": track, "stat": stat, "sfp": pool != "default", "poolfill": pool == "filled", "seed": seed, "alpha": al}, depth))
 
-    FULL = {"addforms": [0, 1], "replace": 1, "readd": 1}
+    FULL = {"addforms": [0, 1], "replace": 1, "readd": 1, "swapself": 1}
+
+    def pair(name, track, depth, **alpha):
+        flags, oc = PAIR_FAMILY[name]
+        add("third3", track, "L:" + name, depth, **alpha)
+        out[-1][0].update(flags=flags, stacks={"IC": IC_STACK, "OC": oc})
+
     LEAN = {"fresh": [0], "triples": "rot", "addocc": 0, "addout": 0}
     if ctx.quick:
         # breadth: every pair of locations of the 7-assembly cores, every operation once
@@ -849,6 +909,9 @@ def inits(ctx):
             add("full7", track, "both", 1, **FULL)
             add("third7", track, "none", 1, pool="default", triples="none", addocc=0)
         add("third7", True, "mixed", 1)
+        # stationary layout pairs: counts equal/different x each position aligned/misaligned
+        for name in sorted(PAIR_FAMILY):
+            pair(name, True, 1, triples="rot", addocc=0, addout=0, swapself=1)
         # every stationary position class x tracking to depth 2 on the mini core with a filled pool
         for track in (True, False):
             for stat in ("none", "gp"):
@@ -877,6 +940,9 @@ def inits(ctx):
             for stat in ("none", "gp", "mixed"):
                 add("full3", track, stat, 3, pool="empty", triples="rot", addocc=1, **FULL)
                 add("third4", track, stat, 2, addocc=1)
+        for name in sorted(PAIR_FAMILY):
+            for track in (True, False):
+                pair(name, track, 2, triples="rot", addocc=0, addout=0, swapself=1)
         for track, stat, pool in ((True, "both", "empty"),):
             add("third3", track, stat, 4, pool=pool, fresh=[0], triples="rot", addocc=0, addout=0, pool_=1)
     for init, _d in out:  # 'pool' is the pool kind in add(); the alphabet bound is spelled pool_ there
@@ -891,7 +957,7 @@ def config_of(init):
 
 # a state whose only violation is this one (present from the initial state on) is still extended
 SOFT_KEYS = [K + "lookup-misses-blueprint-pool-assembly"]
-OPKINDS = ["swap", "casc", "dfresh", "dpool", "remove", "add", "replace", "readd", "addocc", "addout"]
+OPKINDS = ["swap", "casc", "dfresh", "dpool", "remove", "add", "replace", "readd", "addocc", "addout", "readdocc", "swapself"]
 
 
 def insert_positions(plan):
@@ -937,12 +1003,14 @@ def alphabet_matrix(plan):
                     cell[exp] = cell.get(exp, 0) + 1
                     nxt.append(hist + [op])
             frontier = nxt
-    missing = {cfg: [k for k in OPKINDS if not row.get(k, {}).get("ok") and not (k in ("addocc", "addout") and row.get(k))] for cfg, row in mat.items()}
+    missing = {cfg: [k for k in OPKINDS if not row.get(k, {}).get("ok") and not (k in ("addocc", "addout", "readdocc", "swapself") and row.get(k))] for cfg, row in mat.items()}
     return mat, {cfg: ks for cfg, ks in missing.items() if ks}
 
 
 def _model_step(m, op):
     exp = m.expect(op)
+    if op[0] in ("swapself", "readdocc"):
+        return exp
     inc = None
     if op[0] in ("dfresh", "add", "addocc", "addout", "replace"):
         inc = m.fresh_label(op[1])
